@@ -44,6 +44,16 @@ def skip():
 SYMBOLIC = False     # set by the shard runner: notes are dropped, nothing symbolic is ever formatted
 
 
+def untraced():
+    """Context manager: run ORACLE-side code (never the code under test) outside CrossHair's tracer.  Only for
+    computations on values that are concrete on this path (after `pick`)."""
+    import contextlib
+    if not SYMBOLIC:
+        return contextlib.nullcontext()
+    from crosshair.tracers import NoTracing, is_tracing
+    return NoTracing() if is_tracing() else contextlib.nullcontext()
+
+
 def pick(i, n):
     """Selector: turn a (symbolic) index in [0, n) into the CONCRETE integer it equals on this path.
     Every comparison is a solver decision, so the solver enumerates the menu and everything
